@@ -108,6 +108,27 @@ def run(ctx):
             add("extra-defs-first", {"main.circom": gen.render(["pragma circom", "2.0.0", ";"] + xt + xf) + build(defs, idx).split("\n", 1)[1]}, ["main.circom"])
         # hand-written projects whose findings depend on facts merged at joins (sets and maps iterated inside the passes):
         # repeated more often, since a hash-order dependence shows up only in a fraction of the runs
+        # projects of several files, given in both orders (audit C17 f1, f2): an unreadable file reached from two named files (directly
+        # and through an included-only file), and two included-only libraries that define the same template differently
+        tmpl_a = "pragma circom 2.0.0;\ninclude \"%s\";\ntemplate A%d() { signal input i; signal output o; component t = T(); t.a <== i; o <== t.b; }\n"
+        lib_t1 = "pragma circom 2.0.0;\ntemplate T() { signal input a; signal output b; b <== a; }\n"
+        lib_t2 = "pragma circom 2.0.0;\ntemplate T() { signal input a; signal output b; signal output aux; b <== a; aux <== a * a; }\n"
+        hand_files = [
+            ({"x.circom": "pragma circom 2.0.0;\ninclude \"bad.circom\";\ntemplate X() { signal input i; signal output o; o <== i; }\n",
+              "z.circom": "pragma circom 2.0.0;\ninclude \"y.circom\";\ntemplate Z() { signal input i; signal output o; o <== i; }\n",
+              "y.circom": "pragma circom 2.0.0;\ninclude \"bad.circom\";\ntemplate Y() { signal input i; signal output o; o <-- i; }\n",
+              "bad.circom": b"pragma circom 2.0.0;\n// \xff\xfe\ntemplate Bad() { }\n"}, ["x.circom", "z.circom"]),
+            ({"a.circom": tmpl_a % ("lib1/t.circom", 1), "b.circom": tmpl_a % ("lib2/t.circom", 2), "lib1/t.circom": lib_t1, "lib2/t.circom": lib_t2},
+             ["a.circom", "b.circom"]),
+            ({"a.circom": tmpl_a % ("lib1/t.circom", 1), "b.circom": tmpl_a % ("lib2/t.circom", 2), "c.circom": tmpl_a % ("lib1/t.circom", 3),
+              "lib1/t.circom": lib_t1, "lib2/t.circom": lib_t2}, ["a.circom", "b.circom", "c.circom"]),
+        ]
+        for hk, (files, inputs) in enumerate(hand_files):
+            for tag, order in (("ab", inputs), ("ba", list(reversed(inputs)))):
+                req = rl.materialize(wd, "hf%d/%s" % (hk, tag), {"files": files, "inputs": order, "libs": []})
+                srcs = {os.path.basename(r): (t if isinstance(t, bytes) else t.encode("utf-8")) for r, t in files.items()}
+                variants.append((3000 + hk, "hfiles %s" % tag, {"inputs": req["inputs"], "libs": [], "curve": "BN254"}, srcs,
+                                 {r: (t if isinstance(t, str) else repr(t)) for r, t in files.items()}))
         for hk, text in enumerate(HAND):
             for rep in range(nrep * 3):
                 req = rl.materialize(wd, "h%d/r%d" % (hk, rep), {"files": {"main.circom": text}, "inputs": ["main.circom"], "libs": []})
@@ -124,10 +145,17 @@ def run(ctx):
             ref_defs = None
             for (kk, kind, req, srcs, files), rep in items:
                 stats["runs"] += 1
-                if kind.startswith("repeat") or kind.startswith("permuted") or kind.startswith("files"):
+                if kind.startswith("repeat") or kind.startswith("permuted") or kind.startswith("files") or kind.startswith("hfiles"):
                     # same set of definitions: the whole multiset must be the same (file names differ for the split variant)
                     f = findings(rep, srcs)
-                    if kind.startswith("files"):
+                    if kind.startswith("hfiles"):
+                        # hand-written projects: the same file names in both orders, so the file of every label is compared; only the
+                        # scratch directory is taken out of the messages
+                        import re as _re
+                        grp = "hfiles"
+                        f = sorted(_re.sub(r"/var/tmp/verif-c17-[^/]+/hf\d+/(?:ab|ba)/", "", x) for x in f) if isinstance(f, list) else f
+                        key = "files"
+                    elif kind.startswith("files"):
                         grp = kind.split()[0]
                         f = sorted(json.dumps([json.loads(x)[0:3]] + [[l[1:] for l in json.loads(x)[3]]] + [[l[1:] for l in json.loads(x)[4]]] + [json.loads(x)[5]]) for x in f) if isinstance(f, list) else f
                         key = "files"
